@@ -37,7 +37,9 @@ RULE_ADDED = (
               'ing they would match as patterns. '
               ' '
               'Round 9: tool command lines spelled with long options and -v / --verbose now and'
-              ' then. ')
+              ' then. '
+              ' '
+              'Round 10: one image in five has a hash beginning or ending with a zero byte. ')
 RULE = RULE + " " + RULE_ADDED.strip()
 ASSUMPTIONS = [
     "own Intel-HEX writer (pv/gen/ihex.py); areas do not overlap",
@@ -373,9 +375,12 @@ def run_case(acc, cseed, tmpdir, state):
 
 def run_shard(spec, acc):
     env.setup()
+    if spec.get("shard", spec.get("seed", 0)) % 4 >= 2 and env.on_other_fs():
+        acc.count("shards_with_files_on_another_file_system_than_the_temp_directory")
     install_hook()
     rng = random.Random(spec["seed"])
-    tmpdir = env.mkdtemp("c19", spec.get("shard", spec.get("seed", 0)) % 2 == 1)
+    tmpdir = env.mkdtemp("c19", spec.get("shard", spec.get("seed", 0)) % 2 == 1,
+                         other_fs=spec.get("shard", spec.get("seed", 0)) % 4 >= 2)
     state = {"pubs": set()}
     try:
         for i in range(spec["n"]):
